@@ -331,6 +331,22 @@ theorem c10_rid_injective (t1 t2 : Int) (r1 r2 i1 i2 : Nat) (h1 : i1 < 65536) (h
 /-- draws that differ only in bits 28..47 give different RIDs at the same instant -/
 example : ridOf 1790000000000123456 (5 + 1 * 268435456) 7 ≠ ridOf 1790000000000123456 (5 + 2 * 268435456) 7 := by decide
 
+/-- **C10 (the configured size limit is the effective one).**  The reader's buffer is `bufSize maxDocumentSize`
+(`NewIngestor` hands the configured value to `NewBulkHandler` unchanged: `c10_x_size_limit_wiring`; bufio raises
+anything below 16 to 16).  So for every configured limit of at least 16 bytes a document line is "within the size
+limit" of all the theorems above (`fits (bufSize m) line`) iff its bytes plus the `\n` fit the CONFIGURED limit -
+512 stays 512, 2048 stays 2048. -/
+theorem c10_size_limit_is_configured (m : Nat) (hm : 16 ≤ m) (line : Bytes) :
+    fits (bufSize m) line = true ↔ line.length + 1 ≤ m := by
+  have : bufSize m = m := by
+    unfold bufSize
+    split
+    · omega
+    · rfl
+  simp [fits, this]
+
+example : bufSize 2048 = 2048 ∧ bufSize 512 = 512 ∧ bufSize 5 = 16 := by decide
+
 /-! ## time rule -/
 
 open SV.Extracted.C10 in
@@ -562,6 +578,10 @@ theorem c10_x_support_code :
     bulkRoute = ["h.bulk.ServeHTTP(w, req)", "return"] ∧ bulkBodyLimiters = [] ∧
     codecMarshal = ["vtMessage.MarshalVT()", "proto.Marshal(vv)", "nil"] ∧ codecUsesBytesPool = false :=
   ⟨rfl, rfl, rfl, rfl⟩
+
+/-- `NewIngestor` builds the bulk handler with the configured `MaxDocumentSize`, nothing in between -/
+theorem c10_x_size_limit_wiring :
+    newIngestorBulkHandler = ["NewBulkHandler(bulkIngestor, config.Bulk.MaxDocumentSize)"] := rfl
 
 /-! ## Non-vacuity -/
 
